@@ -87,7 +87,10 @@ class Ctx:
         return importlib.import_module(self.naming["versioned_import"])
 
     def services(self):
+        targets = self.api.get("file_to_generate")
         for f in self.api["files"]:
+            if targets and f["name"] not in targets:
+                continue          # a dependency-only file: no client is emitted for its services
             for s in f.get("services", []):
                 yield f, s
 
